@@ -120,7 +120,9 @@ where
         let rhs = |AF: Duration| {
             // demand of the task under analysis
             let self_interference = task_under_analysis.service_needed(A.closed_since_time_zero());
-            let tua_demand = self_interference - rem_cost;
+            // (saturating: at offsets contributed by other tasks' steps the
+            // task under analysis need not have released any job yet)
+            let tua_demand = self_interference.saturating_sub(rem_cost);
 
             // demand of all interfering tasks
             let bound_on_total_hep_workload: Service = other_tasks
